@@ -221,6 +221,17 @@ func c19CallSet(cfg Cfg, fsys *vfs.FS, knownUUID string, report func(sig, what s
 			return nil
 		})
 	}
+	// a query that needs every object cannot be evaluated when an object is unreadable
+	call("UnindexedSearchOverUnreadable", func() error {
+		_, aerr := db.All(&Rec{})
+		s := db.Search(&Rec{}, "P", ">=", int(-1))
+		objs, cerr := s.Collect()
+		n, nerr := db.Count(&Rec{})
+		if aerr != nil && nerr == nil && s.Err() == nil && cerr == nil && len(objs) < n {
+			report("partial-result-without-error", fmt.Sprintf("All fails (%v) but a search on a non indexed field, which has to read every object, silently returns %d of %d objects", aerr, len(objs), n))
+		}
+		return nil
+	})
 	call("AssignIndex", func() error { var t []int; return db.AssignIndex(&Rec{}, "A", &t) })
 	call("InsertOrUpdate", func() error { return db.InsertOrUpdate(NewRec(3, 4)) })
 	call("InsertOrUpdate(update)", func() error {
@@ -475,7 +486,7 @@ func runC19(c *Ctx) {
 		}
 	}
 	// search arguments on healthy databases (empty and non-empty, indexed and not)
-	fields := []string{"A", "S", "P", "L", "K", "T", "F64", "U16", "In.Tag", "In.Lvl", "Emb.E", "Nope", "", "In", "In.", ".A", "A.B", "In.Tag.X", "Emb", "Sl", "M", "Ptr", "Item"}
+	fields := []string{"A", "S", "P", "L", "K", "T", "F64", "U16", "In.Tag", "In.Lvl", "Emb.E", "Nope", "", "In", "In.", ".A", "A.B", "In.Tag.X", "Emb", "Sl", "M", "Ptr", "Item", "Item.uuid", "Emb.E", "Emb.e", "In.tag"}
 	ops := []string{"=", "!=", "<", "<=", ">", ">=", "~=", "<>", "", "==", "and"}
 	one := 1
 	values := []interface{}{int(1), int8(1), int16(1), int32(1), int64(1), uint(1), uint8(1), uint16(1), uint32(1), uint64(1), float32(1), 1.5, "x", "(", "", true, nil, []int{1}, map[string]int{"a": 1}, struct{ X int }{1}, &one, tabT[1], &Rec{}, []byte("x"), 'r', complex(1, 1)}
